@@ -40,7 +40,7 @@ CHECKS = {
     "C11": _c("renamedFrom of every Create is compared with the cookie pairing the spec derives from the kernel records, over random move histories with unmatched halves.", _NOTE, "DESIGN.md 6 C11"),
     "C12": _c("Kernel marks (/proc fdinfo) and table sizes (hook) are compared with the spec's live watch set at every observation; add/remove/delete/recreate cycles are repeated.", _NOTE, "DESIGN.md 6 C12"),
     "C13": _c("After Close and channel closure the inotify descriptor count and library goroutines must be back to the pre-NewWatcher values; NewWatcher failing with EMFILE must leak nothing; create/close loops.", _NOTE, "DESIGN.md 6 C13"),
-    "C14": _c("2-4 watchers with different buffer sizes observe one history while another watcher adds/removes/closes; every stream is judged against the same specification; cap(Events) must equal the request.", _NOTE, "DESIGN.md 6 C14"),
+    "C14": _c("2-4 watchers with different buffer sizes observe one history while another watcher adds/removes/closes; every stream is judged against the same specification; cap(Events) must equal the request. FdReuse.tla (MC_FdReuse: descriptor numbers shared by the Watchers of a process, NoForeignCall / Independent) is model-checked and bound by the closereuse family: Close of a Watcher with a large recursive tree racing NewWatcher/Add of others.", _NOTE, "DESIGN.md 6 C14"),
 }
 
 CHECKS.update({
